@@ -56,6 +56,10 @@ func checkC05(c *Ctx) {
 	prog := progs[0]
 	// "every private scalar d is mapped to the public point d*G": the key constructors (rule C10-3)
 	c10Constructors(c, prog)
+	// ... and the point stays d*G for the life of the key: the accessors hand out copies (rule C10-4)
+	c10Accessors(c, prog)
+	// "the variable-time generator multiply used by verification": its only consumer hands the product on (rule C16-1)
+	c16Double(c, prog)
 	c05File(c, prog)
 	c05Decoder(c, prog)
 	c05Odd(c, prog)
